@@ -349,6 +349,26 @@ fn perturbations(name: &str) -> Vec<String> {
     v.push(name.to_lowercase());
     v.push(name.to_uppercase());
     v.push(format!("{}_SHA", name));
+    // alias-style spellings: other prefixes, no prefix, other separators, surrounding blanks
+    if let Some(tail) = name.strip_prefix("TLS_") {
+        for pre in ["SSL_", "SSL3_", "TLS1_", "TLS13_", "tls_", "ssl_", "", "_", "TLS", "TLS__", "DTLS_", "TLS-"] {
+            v.push(format!("{}{}", pre, tail));
+        }
+        v.push(tail.replace('_', "-"));
+        v.push(tail.replace("_WITH_", "-").replace('_', "-"));
+        v.push(tail.replace("_WITH_", "_"));
+    }
+    v.push(name.replace('_', "-"));
+    v.push(name.replace('_', " "));
+    v.push(name.replace('_', ""));
+    for (a, b) in [("_WITH_", "_with_"), ("SHA256", "SHA-256"), ("SHA", "SHA1"), ("_CBC", ""), ("AES_128", "AES128"), ("AES_256", "AES256"), ("3DES_EDE", "3DES"), ("DHE", "EDH"), ("ECDHE", "EECDH")] {
+        if name.contains(a) {
+            v.push(name.replacen(a, b, 1));
+        }
+    }
+    for (pre, post) in [(" ", ""), ("", " "), ("\t", ""), ("", "\n"), ("", "\0"), ("\u{feff}", "")] {
+        v.push(format!("{}{}{}", pre, name, post));
+    }
     v
 }
 
@@ -522,7 +542,7 @@ fn main() {
     cov.insert("exhaustive".into(), json!(true));
     cov.insert("registry_rows".into(), json!(cx.rows.len()));
     cov.insert("rule".into(), json!(
-        "all 65536 ids through 4 lookup routes (listed ids: all 10 columns + derived sizes against an independent reading of scripts/tls-ciphersuites.txt; name-token agreement); all registry names plus every proper prefix, single-character substitution (4-letter alphabet), deletion, appended/prepended character and case change through both name lookups; committed snapshot of today's assignments. Non-trivial: ids that are listed or adjacent to a listed id; every name query"));
+        "all 65536 ids through 4 lookup routes (listed ids: all 10 columns + derived sizes against an independent reading of scripts/tls-ciphersuites.txt; name-token agreement); all registry names plus every proper prefix, single-character substitution (4-letter alphabet), deletion, appended/prepended character, case change and alias-style respelling (SSL_/tls_/no prefix, other separators, OpenSSL-like abbreviations, surrounding blanks) through both name lookups; committed snapshot of today's assignments. Non-trivial: ids that are listed or adjacent to a listed id; every name query"));
     let code = run.finish(
         &sink,
         cov,
